@@ -446,11 +446,12 @@ def specs(tier, factory="mk"):
             out.append((MOD, factory, (t, (2, 1))))
             out.append((MOD, factory, (t, (1, 2))))
             if not q:
-                out.append((MOD, factory, (t, (2, 2))))
                 out.append((MOD, factory, (t, (1, 1), True)))
-                if t in ("mutual", "allof"):
+                if t in ("mutual", "self_array", "allof", "allof_cycle", "map"):
+                    out.append((MOD, factory, (t, (2, 2))))
+                if t == "mutual":
                     out.append((MOD, factory, (t, (3, 2))))  # (three-character names on every template cost hours)
-        elif not q:
+        elif not q and t in ("ring3", "oneof"):
             out.append((MOD, factory, (t, (2, 1, 1))))
             out.append((MOD, factory, (t, (1, 1, 1), True)))
     if q:
